@@ -245,9 +245,9 @@ def _sess_shards(tier):
 
 
 HARNESSES = [
-    H(segments, shards=_seg_shards, labels=("end", "invalid"), timeout={"quick": 80, "thorough": 1500}),
-    H(anonymous, shards=lambda tier: [("len(cwd) == 0",), ("len(cwd) == 1",)], timeout={"quick": 80, "thorough": 1500}),
-    H(session, shards=_sess_shards, labels=("end", "done"), timeout={"quick": 80, "thorough": 1500}),
+    H(segments, shards=_seg_shards, labels=("end", "invalid"), timeout={"quick": 120, "thorough": 1500}),
+    H(anonymous, shards=lambda tier: [("len(cwd) == 0",), ("len(cwd) == 1",)], timeout={"quick": 120, "thorough": 1500}),
+    H(session, shards=_sess_shards, labels=("end", "done"), timeout={"quick": 120, "thorough": 1500}),
 ]
 
 VECTORS = {
